@@ -20,6 +20,7 @@ type PropConfig struct {
 	Packages    []string `json:"packages"`
 	Functions   []string `json:"functions"`
 	Structural  []string `json:"structural"` // names of structural (frames back end) checks
+	RoundTrips  []vc.RoundTrip `json:"roundtrips"` // From(To(x)) == x lemmas over two real functions
 	Assumptions []string `json:"assumptions"`
 	Unverified  []string `json:"unverified"`
 	Note        string   `json:"note"`
@@ -151,6 +152,20 @@ func cmdCheck(args []string) {
 		for _, u := range v.Unsupp {
 			unsupp = append(unsupp, name+": "+u)
 		}
+	}
+	for _, rt := range cfg.RoundTrips {
+		v, err := eng.VerifyRoundTrip(rt)
+		if err != nil {
+			unbound = append(unbound, "roundtrip "+rt.Name+": "+err.Error())
+			continue
+		}
+		if len(v.Unsupp) > 0 {
+			unbound = append(unbound, "roundtrip "+rt.Name+": "+v.Unsupp[0])
+			continue
+		}
+		funcsUnder = append(funcsUnder, "roundtrip "+rt.From+" o "+rt.To)
+		all = append(all, v.Obls...)
+		notes = append(notes, v.Notes...)
 	}
 	// structural (frames back end) obligations
 	sres := runStructural(eng, cfg.Structural)
